@@ -258,6 +258,7 @@ pub enum XOp {
     Upgrade(u16),
     DropWeak(u16),
     CloneWeak(u16),
+    WeakCloneFrom { dst: u16, src: u16 },
     WeakNew,
     WeakRaw(u16),
     RawRound(u16),
@@ -636,6 +637,25 @@ impl<T: Payload> X<T> {
                 }
             }
         }
+        // identity: ptr_eq agrees with "same object" (both dangling counts as same)
+        for a in 0..self.wroots.len().min(6) {
+            for b in 0..a {
+                let prev = set_phase(Phase::WeakCall);
+                let pe = self.wroots[a].ptr_eq(&self.wroots[b]);
+                shared().phase = prev;
+                if pe != (self.m.wroots[a] == self.m.wroots[b]) {
+                    violate_soft(View::Weak, &format!("Weak::ptr_eq is {} for Weak handles to objects {} and {} (payload {})", pe, self.m.wroots[a] as i64, self.m.wroots[b] as i64, T::NAME));
+                }
+            }
+        }
+        for a in 0..self.roots.len().min(6) {
+            for b in 0..a {
+                let pe = Rc::ptr_eq(&self.roots[a], &self.roots[b]);
+                if pe != (self.m.roots[a] == self.m.roots[b]) {
+                    violate_soft(View::Count, &format!("Rc::ptr_eq is {} for handles to objects {} and {} (payload {})", pe, self.m.roots[a], self.m.roots[b], T::NAME));
+                }
+            }
+        }
         for k in 0..self.wroots.len() {
             let t = self.m.wroots[k];
             let w = &self.wroots[k];
@@ -744,6 +764,21 @@ impl<T: Payload> X<T> {
                     drop(w);
                 }
                 shared().phase = prev;
+            }
+            XOp::WeakCloneFrom { dst, src } => {
+                let n = self.wroots.len();
+                let (Some(i), Some(j)) = (pick(*dst, n), pick(*src, n)) else { return };
+                if i == j {
+                    return;
+                }
+                let sp: *const Weak<T> = &self.wroots[j];
+                let prev = set_phase(Phase::WeakCall);
+                {
+                    let _t = arena::track_on();
+                    self.wroots[i].clone_from(unsafe { &*sp });
+                }
+                shared().phase = prev;
+                self.m.wroots[i] = self.m.wroots[j];
             }
             XOp::WeakNew => {
                 let w = lib(Weak::new);
@@ -1132,6 +1167,7 @@ fn xop_strategy(id: &str) -> BoxedStrategy<XOp> {
         3 => s().prop_map(XOp::Upgrade),
         2 => s().prop_map(XOp::DropWeak),
         1 => s().prop_map(XOp::CloneWeak),
+        2 => (s(), s()).prop_map(|(dst, src)| XOp::WeakCloneFrom { dst, src }),
         1 => Just(XOp::WeakNew),
         2 => s().prop_map(XOp::WeakRaw),
         2 => s().prop_map(XOp::RawRound),
